@@ -1219,6 +1219,15 @@ impl DnsRegistry {
         probe.insert_record(answer.clone_box());
         probe.waiting_services.insert(service_name.to_string());
 
+        // A record that joins a probe that is already under way has not been
+        // in the probe queries sent so far: start the schedule over, so that
+        // it is probed three times like the others.
+        if probe.start_time < start_time {
+            probe.start_time = start_time;
+            probe.next_send = start_time;
+            self.new_timers.push(start_time);
+        }
+
         false
     }
 
